@@ -58,8 +58,13 @@ def ref(d, *args):
     return {"k": "ref", "d": d, "args": list(args)}
 
 
-def lt(name):
-    return {"k": "lt", "lt": name, "t": P(LT_BASE[name])}
+def lt(name, carrier=None):
+    """a field with a logical-type attribute; `carrier`: the Rust type actually written for the field when it is not the logical
+    type's base (the derive substitutes the base type for the schema whatever the field's type is)"""
+    te = {"k": "lt", "lt": name, "t": P(LT_BASE[name])}
+    if carrier is not None:
+        te["carrier"] = carrier
+    return te
 
 
 def struct_(name, fields, ns=None, gparams=0):
@@ -159,9 +164,13 @@ def rust_type(te):
     if k in PTRS:
         return f"{PTRS[k]}<{rust_type(te['t'])}>"
     if k == "lt":
-        return rust_type(te["t"])
+        return rust_type(te.get("carrier", te["t"]))
     if k == "param":
         return f"P{te['i']}"
+    if k == "bytearrp":
+        return f"[u8; P{te['i']}]"
+    if k == "const":
+        return str(te["n"])
     if k == "ref":
         a = ", ".join(rust_type(x) for x in te["args"])
         return te["d"] + (f"<{a}>" if a else "")
@@ -172,7 +181,7 @@ def needs_bytes_attr(te):
     te = peel(te)
     if te["k"] == "lt":
         te = peel(te["t"])
-    return te["k"] in ("bytes", "bytearr") or (te["k"] == "opt" and peel(te["t"])["k"] in ("bytes", "bytearr"))
+    return te["k"] in ("bytes", "bytearr", "bytearrp") or (te["k"] == "opt" and peel(te["t"])["k"] in ("bytes", "bytearr", "bytearrp"))
 
 
 def field_attrs(te):
@@ -192,7 +201,7 @@ def rust_def(fam, d):
     if d.get("ns") is not None:
         head += f'\n\t#[avro_schema(namespace = "{d["ns"]}")]'
     if d["kind"] == "struct":
-        gp = ", ".join(f"P{i}" for i in range(d["gparams"]))
+        gp = ", ".join((f"const P{i}: usize" if i in d.get("cparams", ()) else f"P{i}") for i in range(d["gparams"]))
         fs = "".join(f"\t\t{field_attrs(f['t'])} pub {f['n']}: {rust_type(f['t'])},\n" for f in d["fields"])
         return f"\t{head}\n\tpub struct {d['rust']}{'<' + gp + '>' if gp else ''} {{\n{fs}\t}}\n"
     if d["kind"] == "newtype":
@@ -246,6 +255,8 @@ def subst(te, args):
     k = te["k"]
     if k == "param":
         return args[te["i"]]
+    if k == "bytearrp":
+        return {"k": "bytearr", "n": args[te["i"]]["n"]}
     if "t" in te and isinstance(te["t"], dict):
         return dict(te, t=subst(te["t"], args))
     if k == "ref":
@@ -274,6 +285,8 @@ def gen_value(fam, te, rng, depth, args=()):
     k = te["k"]
     if k == "param":
         return gen_value(fam, args[te["i"]], rng, depth)
+    if k == "bytearrp":
+        return gen_value(fam, {"k": "bytearr", "n": args[te["i"]]["n"]}, rng, depth)
     if k == "bool":
         b = rng.random() < 0.5
         return ("true" if b else "false"), {"p": "bool", "i": int(b)}
@@ -306,6 +319,23 @@ def gen_value(fam, te, rng, depth, args=()):
             s = "".join(rng.choice("0123456789abcdef") for _ in range(32))
             s = f"{s[:8]}-{s[8:12]}-{s[12:16]}-{s[16:20]}-{s[20:]}"
             return rust_str(s), {"p": "str", "v": T(s)}
+        car = te.get("carrier")
+        if car is not None:
+            # a value of the carrier type within the range of the Avro type the logical type sits on
+            blo, bhi = (-(1 << 31), (1 << 31) - 1) if LT_BASE[te["lt"]] == "i32" else (-(1 << 63), (1 << 63) - 1)
+            inner = car
+            wrap = None
+            if car["k"] == "ref":
+                wrap = dn[car["d"]]
+                inner = wrap["t"]
+            bits, signed = INTS[inner["k"]]
+            lo, hi = (-(1 << (bits - 1)), (1 << (bits - 1)) - 1) if signed else (0, (1 << bits) - 1)
+            lo, hi = max(lo, blo), min(hi, bhi)
+            v = rng.choice([lo, hi, 0, min(hi, 1 << 31), min(hi, (1 << 31) - 1), min(hi, (1 << 32) + 5), rng.randint(lo, hi), rng.randint(max(lo, -300), min(hi, 300))])
+            e, p = f"({v}{inner['k']})", {"p": "u64" if inner["k"] == "usize" else inner["k"], "v": limbs(v)}
+            if wrap is not None:
+                return f"{wrap['rust']}({e})", {"p": "newtype_struct", "name": T(wrap["rust"]), "x": p}
+            return e, p
         return gen_value(fam, te["t"], rng, depth, args)
     if k == "opt":
         if depth <= 0 or rng.random() < 0.35:
@@ -375,6 +405,8 @@ def mono(fam):
             return {"k": "lt", "lt": te["lt"], "t": conv(te["t"], args)}
         if k == "bytearr":
             return {"k": "bytearr", "n": te["n"]}
+        if k == "bytearrp":
+            return {"k": "bytearr", "n": args[te["i"]]["n"]}
         if k == "ref":
             a = [subst(x, args) if args else x for x in te["args"]]
             key = json.dumps([te["d"], a], sort_keys=True)
@@ -450,6 +482,21 @@ def hand_families():
     add([struct_("Lease", [("holder", {"k": "param", "i": 0}), ("term", dur)], gparams=1),
          struct_("Top", [("a", ref("Lease", P("i32"))), ("b", ref("Lease", P("string"))), ("c", ref("Lease", P("i32"))), ("plain", dur)])], ref("Top"),
         note="generic record owning a named logical-type node (duration over a 12-byte fixed), instantiated at two types")
+    # logical-type attributes on fields whose Rust type is NOT the logical type's base: the schema is the base's all the same
+    add([newtype("Micros", P("i64")), newtype("Days", P("u16")),
+         struct_("LtCarried", [("a", lt("time-micros", P("u64"))), ("b", lt("timestamp-millis", ref("Micros"))), ("c", lt("date", ref("Days"))),
+                               ("d", lt("time-millis", P("u32"))), ("e", lt("timestamp-micros", P("u32"))), ("f", lt("time-micros", ref("Micros"))),
+                               ("g", lt("timestamp-micros", P("usize"))), ("h", lt("date", P("i16")))])],
+        ref("LtCarried"), note="logical-type attributes over other integer types and newtypes")
+    # const generics: two instantiations are two types (two fullnames)
+    dg = struct_("Digest", [("bytes", {"k": "bytearrp", "i": 0}), ("tag", P("i32"))], gparams=1)
+    dg["cparams"] = [0]
+    add([dg, struct_("TopC", [("a", ref("Digest", {"k": "const", "n": 4})), ("b", ref("Digest", {"k": "const", "n": 8})),
+                              ("c", vec(ref("Digest", {"k": "const", "n": 4})))])], ref("TopC"), note="const-generic struct instantiated at two constants")
+    bt = struct_("Both", [("x", {"k": "param", "i": 0}), ("bytes", {"k": "bytearrp", "i": 1})], gparams=2)
+    bt["cparams"] = [1]
+    add([bt, struct_("TopB", [("a", ref("Both", P("i32"), {"k": "const", "n": 2})), ("b", ref("Both", P("i32"), {"k": "const", "n": 3})),
+                              ("c", ref("Both", P("string"), {"k": "const", "n": 2}))])], ref("TopB"), note="type and const parameters mixed")
     add([struct_("Lt", [("u", lt("uuid")), ("d", lt("date")), ("tm", lt("time-millis")), ("tu", lt("time-micros")), ("sm", lt("timestamp-millis")),
                         ("su", lt("timestamp-micros"))])], ref("Lt"), note="logical-type attributes")
     add([struct_("A", [("x", P("i32"))], ns="my.ns"), struct_("B", [("a", ref("A")), ("y", P("i32"))], ns=""), unit_enum("E", ["X", "Y"], ns="other"),
